@@ -5,6 +5,8 @@ import MdIt.Drv.World
 import MdIt.Drv.Token
 import MdIt.Drv.Str
 import MdIt.Drv.Render
+import MdIt.Drv.Url
+import MdIt.Drv.Core
 open MdIt
 
 def handle (line : String) : String :=
@@ -16,6 +18,11 @@ def handle (line : String) : String :=
   | "world" :: rest => Drv.worldLine rest
   | "dictrt" :: rest => Drv.dictrtLine rest
   | "tree" :: rest => Drv.treeLine rest
+  | "textjoin" :: rest => Drv.textJoinLine rest
+  | "smart" :: rest => Drv.smartLine rest
+  | "encode" :: rest => Drv.urlLine "encode" rest
+  | "validate" :: rest => Drv.urlLine "validate" rest
+  | "scheme" :: rest => Drv.urlLine "scheme" rest
   | "render" :: rest => Drv.renderLine rest
   | "alt" :: rest => Drv.afterRenderLine rest
   | "normalize" :: rest => Drv.strLine "normalize" rest
